@@ -233,3 +233,37 @@ Example request_example :
   fouts (notify n1 0 (mid_can_id_of 6 (pgn_value_of 0 234 32) 16) (ca_request_payload 65226)) =
   [OReq 7 16 32 65226; OReq 8 16 32 65226].
 Proof. vm_compute. reflexivity. Qed.
+
+(* T14.3 closed loop: what send_request of an operational CA on one node puts on the bus, handed to ANOTHER node that
+   accepts the destination, is dispatched there with the requester's held address, the destination and exactly the PGN
+   asked for — for every PGN of up to 24 bits and every destination, global included *)
+Theorem request_closed_loop A i c a now pgn dest B t :
+  nth_error (n_cas A) i = Some c -> c_state c = ca_state_NORMAL -> c_addr c = Some a -> 0 <= a < 256 ->
+  0 <= dest < 256 -> 0 <= pgn < 16777216 -> accepts B dest = true ->
+  exists f, flat (ca_send_request A i now 0 pgn dest) = (A, [OTx f], RDone 0) /\ f_ext f = true /\ f_fd f = false /\
+            flat (notify B t (f_id f) (f_data f)) = (B, fanout_outs (n_cas B) a dest pgn, RDone 0).
+Proof.
+  intros Hc Hs Ha Har Hd Hp Hacc.
+  destruct (request_payload_roundtrip pgn Hp) as (Edec & Elen & _).
+  unfold ca_send_request. rewrite Hc, Hs, Ha. rewrite Z.eqb_refl. cbn [negb andb].
+  rewrite request_args. unfold send_pgn.
+  assert (Emk : pgn_mk 0 234 (dest mod 256) = (0, 234, dest)).
+  { unfold pgn_mk. rewrite !land_255. replace ((dest mod 256) mod 256) with dest by lia. reflexivity. }
+  rewrite Emk.
+  assert ((len (ca_request_payload pgn) <=? 8) = true) as ->.
+  { unfold len. rewrite Elen. reflexivity. }
+  eexists. split; [cbn [flat]; reflexivity|]. cbn [f_ext f_fd f_id f_data]. split; [reflexivity|]. split; [reflexivity|].
+  assert (Ev : pgn_value 0 234 dest = pgn_value_of 0 234 dest).
+  { unfold pgn_value_of. rewrite Z.mod_small in Emk by lia. rewrite Emk. reflexivity. }
+  rewrite Ev. rewrite notify_request; [rewrite Edec; reflexivity|lia|lia|assumption|rewrite Elen; lia].
+Qed.
+
+Example request_closed_loop_example :
+  let A := set_cas (init_node 1 None None) [mk_ca 9 (Some 16) true] in
+  let B0 := set_cas (init_node 1 None None) [mk_ca 5 (Some 32) true; mk_ca 6 (Some 33) true] in
+  let B := set_ca B0 0 (with_ca_reqs (mk_ca 5 (Some 32) true) [7; 8]) in
+  match fouts (ca_send_request A 0 0 0 65226 32) with
+  | [OTx f] => fouts (notify B 0 (f_id f) (f_data f)) = [OReq 7 16 32 65226; OReq 8 16 32 65226]
+  | _ => False
+  end.
+Proof. vm_compute. reflexivity. Qed.
